@@ -15,13 +15,18 @@ import (
 
 	"github.com/multiversx/mx-chain-core-go/data"
 	"github.com/multiversx/mx-chain-core-go/data/transaction"
-	"github.com/multiversx/mx-chain-storage-go/types"
 	"github.com/multiversx/mx-chain-storage-go/fifocache"
 	"github.com/multiversx/mx-chain-storage-go/immunitycache"
 	"github.com/multiversx/mx-chain-storage-go/lrucache"
+	"github.com/multiversx/mx-chain-storage-go/lrucache/capacity"
+	"github.com/multiversx/mx-chain-storage-go/memorydb"
+	"github.com/multiversx/mx-chain-storage-go/storageCacherAdapter"
+	"github.com/multiversx/mx-chain-storage-go/storageUnit"
+	"github.com/multiversx/mx-chain-storage-go/testscommon"
 	"github.com/multiversx/mx-chain-storage-go/timecache"
 	"github.com/multiversx/mx-chain-storage-go/txcache"
 	"github.com/multiversx/mx-chain-storage-go/txcache/maps"
+	"github.com/multiversx/mx-chain-storage-go/types"
 )
 
 // conc14 component (C14): concurrent use of the mempool and the caches (run from a binary built with -race)
@@ -34,7 +39,7 @@ import (
 // the theorems they feed; this component exercises what no model can show: races, panics, runtime deadlocks.
 type conc14Comp struct{}
 
-func init() { register("conc14", conc14Comp{}) }
+func init()                       { register("conc14", conc14Comp{}) }
 func (conc14Comp) Parallel() bool { return false }
 
 type conc14Runner struct {
@@ -43,7 +48,7 @@ type conc14Runner struct {
 }
 
 func (conc14Comp) NewRunner(begin string) Runner { return &conc14Runner{} }
-func (r *conc14Runner) Close()                  { txcache.SetVerifHook(nil) }
+func (r *conc14Runner) Close()                   { txcache.SetVerifHook(nil) }
 
 // run workers with a watchdog; recovered panics are violations
 func (r *conc14Runner) parallel(target string, n int, body func(w int, rng *rand.Rand), seed int64) bool {
@@ -176,6 +181,18 @@ func (r *conc14Runner) stressTxPool(seed int64, nw, nops int, addsOnly bool) {
 	if cache.CountTx() != n || int64(cache.NumBytes()) != sum {
 		r.add("C14", "quiescent-counters", fmt.Sprintf("txpool seed=%d: CountTx=%d NumBytes=%d but %d transactions totalling %d bytes are reachable by hash", seed, cache.CountTx(), cache.NumBytes(), n, sum))
 	}
+	if !addsOnly {
+		// eviction must still work after the concurrent phase: sequential insertions keep the pool within CountThreshold(+1)
+		rng := rand.New(rand.NewSource(seed))
+		for i := 0; i < 80; i++ {
+			wtx, _ := mk(250, i, rng)
+			cache.AddTx(wtx)
+			if cache.CountTx() > uint64(cfg.CountThreshold)+1 {
+				r.add("C14", "eviction-stuck-after-concurrency", fmt.Sprintf("txpool seed=%d: after the concurrent phase the pool holds %d transactions, CountThreshold %d (eviction no longer runs)", seed, cache.CountTx(), cfg.CountThreshold))
+				break
+			}
+		}
+	}
 	if addsOnly {
 		// every distinct transaction present, each list ordered
 		seen := map[string]bool{}
@@ -214,8 +231,11 @@ func (s *c14Session) GetAccountState(a []byte) (*types.AccountState, error) {
 	runtime.Gosched()
 	return &types.AccountState{Nonce: 0, Balance: new(big.Int).Lsh(big.NewInt(1), 100)}, nil
 }
-func (s *c14Session) IsIncorrectlyGuarded(tx data.TransactionHandler) bool { runtime.Gosched(); return false }
-func (s *c14Session) IsInterfaceNil() bool                                 { return s == nil }
+func (s *c14Session) IsIncorrectlyGuarded(tx data.TransactionHandler) bool {
+	runtime.Gosched()
+	return false
+}
+func (s *c14Session) IsInterfaceNil() bool { return s == nil }
 
 // C01/C02 on a concurrent selection
 func (r *conc14Runner) checkSelection(txs []*txcache.WrappedTransaction, acc, gas uint64, maxNum int) {
@@ -242,6 +262,211 @@ func (r *conc14Runner) checkSelection(txs []*txcache.WrappedTransaction, acc, ga
 	if sum != acc || acc > gas || len(txs) > maxNum {
 		r.add("C14", "concurrent-selection-budget", fmt.Sprintf("gas sum %d returned %d requested %d, %d txs maxNum %d", sum, acc, gas, len(txs), maxNum))
 	}
+}
+
+// an item added WHILE its key is being immunized must end up immune (the chunk's ImmunizeKeys is one critical section)
+func (r *conc14Runner) stressImmunizeRace(seed int64) {
+	const nk = 16
+	const fillers = 150000
+	mk := func() *immunitycache.ImmunityCache {
+		c, err := immunitycache.NewImmunityCache(immunitycache.CacheConfig{Name: "c14r", NumChunks: 1, MaxNumItems: 4_000_000, MaxNumBytes: 6000, NumItemsToPreemptivelyEvict: 20})
+		if err != nil {
+			panic(err)
+		}
+		return c
+	}
+	batchFor := func(round int, keys [][]byte) [][]byte {
+		batch := make([][]byte, 0, fillers+nk)
+		batch = append(batch, keys...)
+		for i := 0; i < fillers; i++ {
+			batch = append(batch, []byte{0xf1, byte(round), byte(i), byte(i >> 8), byte(i >> 16)})
+		}
+		return batch
+	}
+	// calibrate: how long does one such ImmunizeKeys call take here?
+	t0 := time.Now()
+	mk().ImmunizeKeys(batchFor(255, nil))
+	total := time.Since(t0)
+	for round := 0; round < 6; round++ {
+		c := mk()
+		keys := make([][]byte, nk)
+		for i := range keys {
+			keys[i] = []byte{0xab, byte(round), byte(i), byte(seed)}
+		}
+		batch := batchFor(round, keys)
+		var wg sync.WaitGroup
+		added := make([]bool, nk)
+		wg.Add(1 + nk)
+		started := make(chan struct{})
+		go func() { defer wg.Done(); close(started); c.ImmunizeKeys(batch) }()
+		// adders start at moments spread over the whole duration of the call: some land inside the chunk-level section
+		for i := 0; i < nk; i++ {
+			go func(i int) {
+				defer wg.Done()
+				<-started
+				time.Sleep(total * time.Duration(i) / nk)
+				_, added[i] = c.HasOrAdd(keys[i], []byte{byte(round), byte(i)}, 10)
+			}(i)
+		}
+		wg.Wait()
+		// pressure: fill the byte capacity several times over
+		for i := 0; i < 300; i++ {
+			c.HasOrAdd([]byte{0xcd, byte(round), byte(i), byte(i >> 8)}, []byte{0}, 100)
+		}
+		for i := 0; i < nk; i++ {
+			if !added[i] {
+				continue
+			}
+			if v, ok := c.Get(keys[i]); !ok || !bytes.Equal(v.([]byte), []byte{byte(round), byte(i)}) {
+				r.add("C14", "immunized-item-lost", fmt.Sprintf("immunize-race seed=%d round %d: key %s was immunized and added concurrently, and was evicted afterwards", seed, round, hx(keys[i])))
+				return
+			}
+		}
+	}
+}
+
+// yieldCacher pauses inside Put (a callback of the unit): harmless while the unit holds its lock around it
+type yieldCacher struct {
+	types.Cacher
+	n uint32
+}
+
+func (y *yieldCacher) Put(key []byte, value interface{}, size int) bool {
+	if atomic.AddUint32(&y.n, 1)%2 == 0 {
+		time.Sleep(30 * time.Microsecond)
+	} else {
+		runtime.Gosched()
+	}
+	return y.Cacher.Put(key, value, size)
+}
+
+func (r *conc14Runner) stressUnit(seed int64, nw, nops int) {
+	inner, _ := lrucache.NewCache(1)
+	cacher := &yieldCacher{Cacher: inner}
+	db := memorydb.New()
+	u, err := storageUnit.NewStorageUnit(cacher, db)
+	if err != nil {
+		panic(err)
+	}
+	keys := [][]byte{{1}, {2}, {3}}
+	for round := 0; round < nops/2; round++ {
+		if !r.parallel("unit", nw, func(w int, rng *rand.Rand) {
+			for i := 0; i < 12; i++ {
+				k := keys[rng.Intn(len(keys))]
+				switch x := rng.Intn(10); {
+				case x < 4:
+					_ = u.Put(k, []byte{byte(w), byte(i)})
+				case x < 8:
+					_, _ = u.Get(k)
+				case x < 9:
+					_ = u.Remove(k)
+				default:
+					u.ClearCache()
+				}
+			}
+		}, seed+int64(round)) {
+			return
+		}
+		// quiescence: the cache must not hold anything the persister does not hold
+		for _, k := range cacher.Keys() {
+			v, ok := cacher.Peek(k)
+			if !ok {
+				continue
+			}
+			pv, err := db.Get(k)
+			if err != nil || !bytes.Equal(pv, v.([]byte)) {
+				r.add("C14", "unit-incoherent-after-concurrency", fmt.Sprintf("unit seed=%d: cache serves %s=%s, persister holds %s (err=%v)", seed, hx(k), hx(v.([]byte)), hx(pv), err))
+				return
+			}
+		}
+	}
+}
+
+// RemoveTxByHash racing with the bulk removal AddTx performs (after unlocking) for a transaction trimmed by the
+// per-sender limit: the hash must be un-counted exactly once
+func (r *conc14Runner) stressTxRemoveRace(seed int64) {
+	cfg := txcache.ConfigSourceMe{Name: "c14rm", NumChunks: 2, EvictionEnabled: false, NumBytesThreshold: 1_000_000_000, NumBytesPerSenderThreshold: 1_000_000,
+		CountThreshold: 1_000_000, CountPerSenderThreshold: 1, NumItemsToPreemptivelyEvict: 1}
+	cache, err := txcache.NewTxCache(cfg, c14Host{})
+	if err != nil {
+		panic(err)
+	}
+	// a few permanent residents keep the counters positive (a negative counter would be clamped to 0 by GetUint64)
+	for i := 0; i < 50; i++ {
+		cache.AddTx(&txcache.WrappedTransaction{Tx: &transaction.Transaction{SndAddr: []byte{0xc0, byte(i)}, Nonce: 0, GasPrice: 1, GasLimit: 1, Value: big.NewInt(0)}, TxHash: []byte{9, byte(i)}, Size: 1000})
+	}
+	// rendez-vous: the adder, right after releasing mutTxOperation (hook), and the remover leave the barrier together
+	var phase int32
+	txcache.SetVerifHook(func(id string) {
+		if id == "txcache.addTx.afterUnlock" && atomic.LoadInt32(&phase) == 10 {
+			atomic.StoreInt32(&phase, 1)
+			for i := 0; i < 1_000_000 && atomic.LoadInt32(&phase) != 2; i++ {
+			}
+		}
+	})
+	defer txcache.SetVerifHook(nil)
+	for round := 0; round < 6000; round++ {
+		snd := []byte{0xb0, byte(round)}
+		ha := []byte{1, byte(round >> 8), byte(round)}
+		hb := []byte{2, byte(round >> 8), byte(round)}
+		cache.AddTx(&txcache.WrappedTransaction{Tx: &transaction.Transaction{SndAddr: snd, Nonce: 1, GasPrice: 1, GasLimit: 1, Value: big.NewInt(0)}, TxHash: ha, Size: 10})
+		var wg sync.WaitGroup
+		wg.Add(2)
+		atomic.StoreInt32(&phase, 10)
+		go func() {
+			defer wg.Done()
+			cache.AddTx(&txcache.WrappedTransaction{Tx: &transaction.Transaction{SndAddr: snd, Nonce: 0, GasPrice: 1, GasLimit: 1, Value: big.NewInt(0)}, TxHash: hb, Size: 10})
+		}()
+		go func() {
+			defer wg.Done()
+			for i := 0; i < 50_000_000 && atomic.LoadInt32(&phase) != 1; i++ {
+			}
+			atomic.StoreInt32(&phase, 2) // the adder is about to bulk-remove the trimmed transaction: go
+			cache.RemoveTxByHash(ha)
+		}()
+		wg.Wait()
+		atomic.StoreInt32(&phase, 0)
+		cache.RemoveTxByHash(hb)
+	}
+	n, sum := uint64(0), int64(0)
+	cache.ForEachTransaction(func(h []byte, v *txcache.WrappedTransaction) { n++; sum += v.Size })
+	if cache.CountTx() != n || int64(cache.NumBytes()) != sum {
+		r.add("C14", "quiescent-counters", fmt.Sprintf("txremove-race seed=%d: CountTx=%d NumBytes=%d but %d transactions totalling %d bytes are reachable by hash", seed, cache.CountTx(), cache.NumBytes(), n, sum))
+	}
+}
+
+func (r *conc14Runner) stressAdapter(seed int64, nw, nops int) {
+	mem, _ := capacity.NewCapacityLRU(3, 1000)
+	db := memorydb.New()
+	a, err := storageCacherAdapter.NewStorageCacherAdapter(mem, db, serFactory{}, &testscommon.MarshalizerMock{})
+	if err != nil {
+		panic(err)
+	}
+	var done sync.Map // keys whose Put has returned
+	var lost int32
+	r.parallel("adapter", nw, func(w int, rng *rand.Rand) {
+		for i := 0; i < nops; i++ {
+			if w%2 == 0 {
+				k := []byte{byte(w), byte(i >> 8), byte(i)}
+				a.Put(k, &serVal{append([]byte{0xee}, k...)}, 10)
+				done.Store(string(k), true)
+			} else {
+				// a reader: every key whose Put has returned must be reported
+				done.Range(func(key, _ interface{}) bool {
+					if rng.Intn(8) != 0 {
+						return true
+					}
+					if !a.Has([]byte(key.(string))) {
+						if atomic.CompareAndSwapInt32(&lost, 0, 1) {
+							r.add("C14", "adapter-entry-in-neither-tier", fmt.Sprintf("adapter seed=%d: key %s (Put returned) not reported by Has during a concurrent Put", seed, hx([]byte(key.(string)))))
+						}
+						return false
+					}
+					return true
+				})
+			}
+		}
+	}, seed)
 }
 
 func (r *conc14Runner) stressImmunity(seed int64, nw, nops int) {
@@ -397,6 +622,9 @@ func (r *conc14Runner) Exec(line string) string {
 	nw, _ := strconv.Atoi(t[3])
 	nops, _ := strconv.Atoi(t[4])
 	procs, _ := strconv.Atoi(t[5])
+	if strings.HasSuffix(t[1], "-race") || t[1] == "unit" || t[1] == "adapter" {
+		procs = 8 // the targeted interleavings need real parallelism
+	}
 	old := runtime.GOMAXPROCS(procs)
 	defer runtime.GOMAXPROCS(old)
 	r.tag("stress:" + t[1])
@@ -407,6 +635,14 @@ func (r *conc14Runner) Exec(line string) string {
 		r.stressTxPool(seed, nw, nops, true)
 	case "immunity":
 		r.stressImmunity(seed, nw, nops)
+	case "txremove-race":
+		r.stressTxRemoveRace(seed)
+	case "immunize-race":
+		r.stressImmunizeRace(seed)
+	case "unit":
+		r.stressUnit(seed, nw, nops)
+	case "adapter":
+		r.stressAdapter(seed, nw, nops/4)
 	case "lru":
 		c, _ := lrucache.NewCache(16)
 		r.stressCacher("lru", c, 16, seed, nw, nops)
@@ -429,7 +665,7 @@ func (conc14Comp) Gen(rng *rand.Rand, tier string) [][]string {
 	if tier == "thorough" {
 		rounds, nops = 12, 1500
 	}
-	targets := []string{"txpool", "txadds", "immunity", "lru", "sizelru", "fifo", "timecache", "cmap"}
+	targets := []string{"txpool", "txadds", "txremove-race", "immunity", "immunize-race", "lru", "sizelru", "fifo", "timecache", "cmap", "unit", "adapter"}
 	var hs [][]string
 	h := []string{"begin conc14"}
 	for round := 0; round < rounds; round++ {
